@@ -7,7 +7,7 @@ LEAN_DIR = os.path.join(VERIF, "lean")
 HARNESS_DIR = os.path.join(VERIF, "harness")
 SCRATCH = os.path.join(VERIF, "scratch")
 MODEL_BIN = os.path.join(LEAN_DIR, ".lake", "build", "bin", "pakhi_model")
-IMPL_BIN = os.path.join(HARNESS_DIR, "target", "release", "impl_driver")
+IMPL_BIN = os.environ.get("PAKHI_IMPL_BIN") or os.path.join(HARNESS_DIR, "target", "release", "impl_driver")   # override: tools/coverage.sh
 ENV = dict(os.environ, CARGO_NET_OFFLINE="true")
 
 M_REC_START, M_ENT_START, M_ENT_END, M_REC_END = "\ue000", "\ue001", "\ue002", "\ue003"
@@ -241,7 +241,7 @@ class RunAns:
         rest = m.group(2).split(" ")
         st = []
         for tok in rest:
-            if "=" in tok and re.match(r"^(fs|nlists|nfreeL|nrecords|nfreeR|colls)=", tok):
+            if "=" in tok and re.match(r"^(fs|nlists|nfreeL|nrecords|nfreeR|colls|dupL|dupR)=", tok):
                 k, v = tok.split("=", 1)
                 self.extra[k] = v
             else:
